@@ -33,9 +33,9 @@ CONFIGS = [
     ("truthy", ["Ot", "Ct", "Of", "Cf", "On", "Cn", "Oz", "Cz", "Oi", "Ci", "Oe", "Ce", "Os", "Cs", "Ozz", "Czz", "X", "Vdot"], [True], 3, 4),
     ("inverted", ["It", "Ct", "If", "Cf", "In", "Cn", "Iz", "Cz", "Ii", "Ci", "Ie", "Ce", "Izz", "Czz", "Io", "Co", "Ia", "Ca", "Iozz", "Cozz", "X", "Vs"],
      [True], 3, 4),
-    ("dotted", ["Ool", "Col", "Oosp", "Cosp", "Oo", "Co", "Vdot", "Rdot", "Vs", "Vt", "X", "Iozz", "Cozz"], [True], 3, 5),
+    ("dotted", ["Ool", "Col", "Oosp", "Cosp", "Oo", "Co", "Vdot", "Rdot", "Vs", "Vt", "X", "Iozz", "Cozz"], [True], 3, 4),
     ("standalone", ["SP", "W2", "NL", "CRNL", "X", "Oo", "Co", "K1", "K3", "Vs", "Ia", "Ca"], [True], 3, 5),
-    ("comments", ["K1", "K2", "K3", "K4", "X", "SP", "NL", "Vs", "RB"], [True], 3, 5),
+    ("comments", ["K1", "K2", "K3", "K4", "X", "SP", "NL", "Vs", "RB"], [True], 3, 4),
     ("partials", ["Pp", "Ppsp", "Pm", "Pmm", "Pmmc", "Psec", "Pout", "Prec", "Pmut", "Pno", "Pbad", "SP", "W2", "NL", "X", "Of", "Cf", "If"], [True], 3, 4),
     ("noresolver", ["Pp", "Pno", "X", "Of", "Cf", "If", "NL"], [False], 3, 4),
     ("errors", ["B1", "B2", "B3", "B4", "SD", "X", "Vs", "Oo", "Co", "RB", "LB", "K4", "Rq"], [True], 3, 4),
